@@ -110,6 +110,25 @@ def power_lattice(rng, tier):
         [flow_for({'A': A, 'B': B}[n], 0.12) for (_, _, n) in lay],
         gap_model='flow', bypass_fraction=0.03, ncell=3, power_order=2,
         own_cells=True)))
+    # several time points, one power file each: the model built for time
+    # point k deposits the power of ITS file
+    t3 = add_regions(bundle_type(2), L,
+                     lower=dict(model='simple', vf_coolant=0.3),
+                     upper=dict(model='simple', vf_coolant=0.4))
+    base = make_core(rng, {'a1': t3}, [(1, 1, 'a1')], [flow_for(t3)],
+                     gap_model='none', ncell=2, power_order=1)
+    pws = [base['power']]
+    for k in range(2):
+        other = make_core(rng, {'a1': t3}, [(1, 1, 'a1')], [flow_for(t3)],
+                          gap_model='none', ncell=3 - k, power_order=2 - k)
+        pws.append(other['power'])
+    for k in range(3):
+        c = copy.deepcopy(base)
+        c['powers'] = copy.deepcopy(pws)
+        c['_tp'] = k
+        if k == 2:
+            c['power_scaling_factor'] = 1.6
+        out.append((f'p-timepoint-{k + 1}-of-3', c))
     if tier == 'thorough':
         out += [('p-' + l, cc) for l, cc in cl[1:]]
         for i in range(6):
